@@ -2,7 +2,7 @@
    `orc` is the blob oracle (vellum / roaring / snappy decoding done by the harness co-process). *)
 From Coq Require Import List NArith ZArith Bool.
 Import ListNotations.
-Require Import Sx Bytes Footer Ref Spec Wire Layout.
+Require Import Sx Bytes Footer Ref Spec Wire Layout SpecMerge.
 Open Scope N_scope.
 
 (* ---- C20: (1 ops) with op 0 = AddRef, 1 = DecRef/Close ---- *)
@@ -70,6 +70,17 @@ Definition h_parse (orc : sx -> sx) (args : list sx) : sx :=
   | _ => sxerr 4
   end.
 
+(* ---- C05/C06/C13: (5 (contents) (drops)) -> (content maps) ---- *)
+Definition h_spec_merge (args : list sx) : sx :=
+  match args with
+  | [L cs; L ds] =>
+      match mapo content_of_sx cs, mapo getLA ds with
+      | Some cs', Some ds' => let '(c, maps) := spec_merge cs' ds' in L [sx_of_content c; L (map sxLA maps)]
+      | _, _ => sxerr 5
+      end
+  | _ => sxerr 5
+  end.
+
 Definition handle (orc : sx -> sx) (req : sx) : sx :=
   match req with
   | L (A k :: args) =>
@@ -77,6 +88,7 @@ Definition handle (orc : sx -> sx) (req : sx) : sx :=
       else if k =? 2 then h_footer args
       else if k =? 3 then h_spec_build args
       else if k =? 4 then h_parse orc args
+      else if k =? 5 then h_spec_merge args
       else sxerr 0
   | _ => sxerr 0
   end.
